@@ -330,7 +330,17 @@ func c16Conc(c *Ctx, name string, b vsched.Bounds) Sched {
 				}
 				return nil
 			}
-			return bodies, check, func() string { return fmt.Sprint(results[0].Status, results[1].Status) }
+			return bodies, check, func() string {
+				o := ""
+				for _, r := range results {
+					if r == nil { // (a request that never returned: deadlock)
+						o += "- "
+					} else {
+						o += fmt.Sprint(r.Status, " ")
+					}
+				}
+				return o
+			}
 		},
 	}
 }
